@@ -124,8 +124,27 @@ class StmtMixin:
                 self.note("list/dict stored into a field by reference is modelled as a copy (%s)" % ast.unparse(s.value))
             for tgt in s.targets:
                 self.assign_to(tgt, v, s2, exc)
+            self.check_after_assign(s, s2)
             outs.append(Outcome("normal", s2))
         return outs + exc
+
+    def check_after_assign(self, s, st):
+        """intermediate assertions of the sidecar: ensures_local keys 'name@after:<target> = <callee>' are proof
+        obligations in the state right after that assignment (target text and called name taken from the source)"""
+        locs = [k for k in self.contract.ensures_local if "@after:" in k]
+        if not locs or not isinstance(s.value, ast.Call):
+            return
+        here = "%s = %s" % (ast.unparse(s.targets[0]), ast.unparse(s.value.func))
+        for key in locs:
+            name, where = key.split("@after:")
+            if where.strip() != here:
+                continue
+            self.after_sites_seen.add(key)
+            self.cur_clause = name
+            env = dict(st.env)
+            env.update(self.params_env)
+            g, sk = self.goal_term(self.contract.ensures_local[key], env, st, old=self.entry_state)
+            self.oblige(st, g, "%s#after.%s" % (self.short, name), "ensures", self.curline, self.contract.ensures_local[key], sk)
 
     def st_AnnAssign(self, s, st):
         if s.value is None:
